@@ -63,7 +63,10 @@ EXPECT = {
 }
 DEF_SHA = {
     "addop": "68f8ac4c2e0af38bcaf9bb103f923486ef9c1948a47c59193b76a8ccc12390fd",
-    "_myround": "b4a189197f1beec1cc4af0837b523ac722c94dcdfcf2431ed5380a1156df3048",
+    # `round` is outside C04's grammar (only its arity 2 is used): the current definition and the one of
+    # fixes/C03-expr-round-negative-digits.diff are both accepted
+    "_myround": ("b4a189197f1beec1cc4af0837b523ac722c94dcdfcf2431ed5380a1156df3048",
+                 "bcc5866f3a1e881d93b2738f11e173e7354574fd334557d730d7cfcb625d32b9"),
     "tokenize": "617891b757bb2cca2bae697867957a2a52c3531192bb6f5b8a68af5519272750",
 }
 
@@ -112,7 +115,7 @@ def analyse(path):
         if name not in defs or not isinstance(defs[name], ast.FunctionDef):
             raise Unexpected("def %s missing" % name)
         got = _sha(defs[name])
-        if got != want:
+        if got not in ((want,) if isinstance(want, str) else want):
             raise Unexpected("def %s changed (sha256 of its AST %s): review ExprModel.v / this translator" % (name, got))
     for cname in ("UMinus", "UPlus", "Expr", "ExprError"):
         if not isinstance(defs.get(cname), ast.ClassDef):
